@@ -210,7 +210,7 @@ def run_one(exe, s, C):
             o.append(" ".join(v3(r) for r in box))
             o.append("%d" % len(rec))
             for (p, v, f) in rec:
-                o.append("1%d%d %s %s %s" % (int(v is not None), int(f is not None), v3(p), v3(v or [0, 0, 0]), v3(f or [0, 0, 0])))
+                o.append("1%d%d %s %s %s %s" % (int(v is not None), int(f is not None), me(1.0), v3(p), v3(v or [0, 0, 0]), v3(f or [0, 0, 0])))
         o.append("|")
         if rc != 0:
             kind = "halfbox" if "bigger than half the box" in msg else "other"
@@ -221,7 +221,7 @@ def run_one(exe, s, C):
             for fr in res:
                 o.append("%d" % len(fr))
                 for (p, v, f) in fr:
-                    o.append("1%d%d %s %s %s" % (int(v is not None), int(f is not None), v3(p), v3(v or [0, 0, 0]), v3(f or [0, 0, 0])))
+                    o.append("1%d%d %s %s %s %s" % (int(v is not None), int(f is not None), me(1.0), v3(p), v3(v or [0, 0, 0]), v3(f or [0, 0, 0])))
         return " ".join(" ".join(o).split())
     except Exception as e:      # a malformed output file is a result, not a harness failure
         return "C01 erun %s harness-exception %s" % (s.sid, g.hexs(repr(e)[:200]))
